@@ -6,6 +6,7 @@ from .. import tlc, tlaparse, common, histrun
 from ..common import pviolation, bump
 
 WIDE = (Fr(-2), Fr(4))
+DEEP_K = 226          # data points per variable of the deep least-squares objective (2 * 226 > 400 accumulated terms)
 
 
 def q(x):
@@ -56,6 +57,13 @@ def instance(s, rng):
         xs[i] = rng.uniform(-1.0, 3.0)
     A = np.array([[rng.uniform(-1, 1) for _ in range(n)] for _ in range(n)])
     Q = A @ A.T + n * np.eye(n)
+    data = None
+    pair_b = None
+    if st['obj'] == 'lsqdeep':
+        # f(x) = sum_k (x[i_k] - a_k)**2 / b_k over n * DEEP_K data points, accumulated term by term:
+        # = 0.5 (x - c)' Q (x - c) + const with diagonal Q = diag(sum_k 2 / b_k) and c = the weighted mean of the a_k
+        pair_b = [[rng.choice([100.0, 200.0, 400.0]) for _ in range(DEEP_K // 2)] for _ in range(n)]
+        Q = np.diag([sum(4.0 / b for b in pair_b[i]) for i in range(n)])
     k = np.array([rng.choice([0.3, -0.4, 0.5]) for _ in range(n)]) if st['obj'] == 'nonquad' else np.zeros(n)
     a = np.array([rng.choice([1.0, -1.0, 2.0, 0.5]) for _ in range(n)])
     target = np.zeros(n)
@@ -68,10 +76,20 @@ def instance(s, rng):
     kexp = k * np.exp(k * xs)
     c = xs - np.linalg.solve(Q, target - kexp)
     b = float(a @ xs) - (2.0 if st['cons'] == 'ineq_inactive' else 0.0)
-    f = lambda x: 0.5 * (x - c) @ Q @ (x - c) + (np.sum(np.exp(k * x)) if st['obj'] == 'nonquad' else 0.0)
+    const0 = 0.0
+    if st['obj'] == 'lsqdeep':
+        # data points in pairs c_i +- d with the same weight: the centre stays c
+        data = []
+        for i in range(n):
+            for bb in pair_b[i]:
+                d = rng.uniform(0.1, 1.0)
+                data.append((i, float(c[i] + d), bb))
+                data.append((i, float(c[i] - d), bb))
+                const0 += 2 * d * d / bb
+    f = lambda x: 0.5 * (x - c) @ Q @ (x - c) + (np.sum(np.exp(k * x)) if st['obj'] == 'nonquad' else 0.0) + const0
     g = lambda x: Q @ (x - c) + (k * np.exp(k * x) if st['obj'] == 'nonquad' else 0.0)
     H = lambda x: Q + (np.diag(k * k * np.exp(k * x)) if st['obj'] == 'nonquad' else 0.0)
-    return dict(n=n, lbs=lbs, ubs=ubs, xs=xs, Q=Q, k=k, a=a, c=c, b=b, f=f, g=g, H=H, )
+    return dict(n=n, lbs=lbs, ubs=ubs, xs=xs, Q=Q, k=k, a=a, c=c, b=b, f=f, g=g, H=H, data=data)
 
 
 def build_optyx(s, ins):
@@ -97,8 +115,13 @@ def build_optyx(s, ins):
             vs[i] = optyx.Variable('x%d' % i, lb=None if ins['lbs'][i] is None else float(ins['lbs'][i]),
                                    ub=None if ins['ubs'][i] is None else float(ins['ubs'][i]))
         f = 0.0
+        if st['obj'] == 'lsqdeep':
+            for i, a_k, b_k in ins['data']:
+                f = f + ((vs[i] - a_k) ** 2) / b_k
         for i in range(n):
             for j in range(n):
+                if st['obj'] == 'lsqdeep':
+                    break
                 f = f + (0.5 * float(Q[i, j])) * ((vs[i] - float(c[i])) * (vs[j] - float(c[j])))
         if st['obj'] == 'nonquad':
             for i in range(n):
@@ -279,9 +302,9 @@ def run(report, tier):
         groups = {}
         for s in structs:
             st = s['st']
-            groups.setdefault((st['m'], st['opts'], st['cons'], st['others'], str(st['bp'])), []).append(s)
+            groups.setdefault((st['m'], st['opts'], st['cons'], st['others'], str(st['bp']), st['obj'] == 'lsqdeep'), []).append(s)
         sample = [rng.choice(groups[k]) for k in sorted(groups)]
-        report.extra['strata (method, options, constraints, other bounds, bound pair) all covered'] = len(groups)
+        report.extra['strata (method, options, constraints, other bounds, bound pair, deep objective) all covered'] = len(groups)
         sample += rng.sample(structs, 1200)
         items = [(s, 0) for s in sample]
     else:
